@@ -61,8 +61,9 @@ pub struct ClientConfig { _p: () }
 pub struct Arc<T> { _p: core::marker::PhantomData<T> }
 impl<T> Arc<T> {
     #[verifier::external_body]
-    pub fn clone(a: &Arc<T>) -> (r: Arc<T>) { unimplemented!() }
+    pub fn clone(a: &Arc<T>) -> (r: Arc<T>) ensures r == *a { unimplemented!() }
 }
+impl<T> Clone for Arc<T> { #[verifier::external_body] fn clone(&self) -> (r: Arc<T>) ensures r == *self { unimplemented!() } }
 #[verifier::external_body]
 pub struct RustlsTlsConnector { _p: () }
 impl vstd::std_specs::convert::FromSpecImpl<Arc<ClientConfig>> for RustlsTlsConnector {
@@ -119,6 +120,26 @@ impl<R: Host, IO> Connection<R, IO> {
 
 //@check_struct file=${FILE} name=TlsConnectorService fields=connector
 pub struct TlsConnectorService { pub connector: Arc<ClientConfig> }
+/// actix_utils::future::{ok, Ready}
+#[verifier::reject_recursive_types(T)]
+pub struct Ready<T> { pub val: Option<T> }
+pub fn ok<T, E>(t: T) -> (r: Ready<Result<T, E>>) ensures r.val == Some(Ok::<T, E>(t)) { Ready { val: Some(Ok(t)) } }
+//@check_struct file=${FILE} name=TlsConnector fields=connector
+pub struct TlsConnector { pub connector: Arc<ClientConfig> }
+impl TlsConnector {
+//@extract file=${FILE} item="impl TlsConnector / fn new" ret=r props=C19 name=connect::factory_new
+//@spec
+    ensures r.connector == connector,
+//@end
+//@extract file=${FILE} item="impl TlsConnector / fn service" ret=r props=C19 name=connect::factory_service
+//@spec
+    ensures r.connector == connector,   // [C19] the service handshakes with the configuration it was given
+//@end
+//@extract file=${FILE} item="impl<R, IO> ServiceFactory<Connection<R, IO>> for TlsConnector / fn new_service" ret=r props=C19 name=connect::factory_new_service sig_replace="fn new_service(&self, _: ())=>fn new_service(&self, _unused: ())"
+//@spec
+    ensures r.val matches Some(Ok(svc)) && svc.connector == self.connector,   // [C19] every service built by the factory uses the factory's TLS configuration
+//@end
+}
 #[verifier::reject_recursive_types(R)]
 #[verifier::reject_recursive_types(IO)]
 //@extract_type file=${FILE} item="enum ConnectFut<R, IO>"
